@@ -264,3 +264,30 @@ def reads_in(node):
         elif n["k"] == "MemberExpr" and n["member"]["kind"] == "field":
             out.add(("f", n["member"]["qname"], n["member"]["name"]))
     return out
+
+
+def loop_facts(cfg, head, body):
+    """for every block of a natural loop: the branch facts (text, truth) that hold on every path from
+    the loop head to that block within one iteration (forward must-analysis, intersection at joins).
+    Handles nested ifs and the 'if (c) continue;' idiom alike."""
+    TOP = None
+    facts = {b: TOP for b in body}
+    facts[head] = frozenset()
+    changed = True
+    while changed:
+        changed = False
+        for b in body:
+            if b == head:
+                continue
+            acc = TOP
+            for p in cfg.pred[b]:
+                if p not in body or facts[p] is TOP:
+                    continue
+                if b == head:
+                    continue
+                f = set(facts[p]) | {(t, tr) for t, tr, _ in edge_facts(cfg, p, b)}
+                acc = f if acc is TOP else (acc & f)
+            if acc is not TOP and (facts[b] is TOP or frozenset(acc) != facts[b]):
+                facts[b] = frozenset(acc)
+                changed = True
+    return {b: (set(f) if f is not TOP else set()) for b, f in facts.items()}
